@@ -748,6 +748,17 @@ def _regonly_alphabet(f, o, alt, mode):
         out.append(("wrong-base", Mem(size, base=(A, 3 if rid != 3 else 1))))
         out.append(("disp", Mem(size, base=(A, rid), disp=8)))
         out.append(("nosize", Mem(0, base=(A, rid))))
+    elif r in ("r16", "r32", "r64"):
+        # movdir64b / enqcmd / umonitor style: any register of that width holds the address (REX.B, address-size and
+        # segment prefixes all meet in front of the opcode); displacement and index are not encodable
+        for b in (0, 1, 4, 5, 7, 8, 9, 12, 13, 15):
+            out.append(("b%d" % b, Mem(size, base=(r, b))))
+        for sg in (1, 5, 6):
+            out.append(("seg%d" % sg, Mem(size, base=(r, 3), seg=sg)))
+        out.append(("seg5-b9", Mem(size, base=(r, 9), seg=5)))
+        out.append(("seg6-b13", Mem(size, base=(r, 13), seg=6)))
+        out.append(("disp", Mem(size, base=(r, 3), disp=8)))
+        out.append(("index", Mem(size, base=(r, 3), index=(r, 1))))
     return out
 
 
